@@ -2,6 +2,7 @@
 namespace Larking.Expected.C16
 
 def conds_path_addRule : List String := [
+   "func (*path) addRule( rule *annotations.HttpRule, desc protoreflect.MethodDescriptor, name string, ) error",
    "typeswitch v := rule.Pattern.(type)",
    "case *annotations.HttpRule_Get",
    "case *annotations.HttpRule_Put",
@@ -57,6 +58,7 @@ def conds_path_addRule : List String := [
   ]
 
 def conds_lexTemplate : List String := [
+   "func lexTemplate(l *lexer) error",
    "if r := l.next(); r != '/'",
    "return l.errUnexpected()",
    "if err := l.emit(tokenSlash); err != nil",
@@ -77,6 +79,7 @@ def conds_lexTemplate : List String := [
   ]
 
 def conds_lexSegments : List String := [
+   "func lexSegments(l *lexer) error",
    "for",
    "if err := lexSegment(l); err != nil",
    "return err",
@@ -87,6 +90,7 @@ def conds_lexSegments : List String := [
   ]
 
 def conds_lexSegment : List String := [
+   "func lexSegment(l *lexer) error",
    "switch",
    "case unicode.IsLetter(r)",
    "return lexLiteral(l)",
@@ -101,6 +105,7 @@ def conds_lexSegment : List String := [
   ]
 
 def conds_lexVariable : List String := [
+   "func lexVariable(l *lexer) error",
    "if r != '{'",
    "return l.errUnexpected()",
    "if err := l.emit(tokenVariableStart); err != nil",
@@ -118,6 +123,7 @@ def conds_lexVariable : List String := [
   ]
 
 def conds_lexFieldPath : List String := [
+   "func lexFieldPath(l *lexer) error",
    "if err := lexIdent(l); err != nil",
    "return err",
    "for",
@@ -130,6 +136,7 @@ def conds_lexFieldPath : List String := [
   ]
 
 def conds_lexVerb : List String := [
+   "func lexVerb(l *lexer) error",
    "if err := lexLiteral(l); err != nil",
    "return err",
    "if r := l.next(); r == eof",
@@ -138,24 +145,28 @@ def conds_lexVerb : List String := [
   ]
 
 def conds_lexIdent : List String := [
+   "func lexIdent(l *lexer) error",
    "if i := l.acceptRun(isIdent); i == 0",
    "return l.errShort()",
    "return l.emit(tokenIdent)"
   ]
 
 def conds_lexLiteral : List String := [
+   "func lexLiteral(l *lexer) error",
    "if i := l.acceptRun(isLiteral); i == 0",
    "return l.errShort()",
    "return l.emit(tokenLiteral)"
   ]
 
 def conds_lexer_emit : List String := [
+   "func (*lexer) emit(typ tokenType) error",
    "if l.len >= len(l.toks)",
    "return errTokenLimit",
    "return nil"
   ]
 
 def conds_Mux_registerService : List String := [
+   "func (*Mux) registerService(gsd *grpc.ServiceDesc, ss interface{}) error",
    "defer m.mu.Unlock()",
    "if err != nil",
    "return err",
@@ -182,6 +193,7 @@ def conds_Mux_registerService : List String := [
   ]
 
 def conds_state_appendHandler : List String := [
+   "func (*state) appendHandler( opts muxOptions, desc protoreflect.MethodDescriptor, h *handler, ) error",
    "if err := s.path.addRule(implicitRule, desc, h.method); err != nil",
    "range opts.httprules.getRules(name)",
    "if err := s.path.addRule(rule, desc, h.method); err != nil",
